@@ -100,9 +100,10 @@ def run(res, prop, props_v, monitor, quick_n=(110, 36), thorough_n=(1500, 60), r
     sessions, crashes = [], []
     cdir = corpus_dir or os.path.join(vlib.VERIF, "corpus", prop)
     corpus_sessions = []
+    corpus_racy = []
     if os.path.isdir(cdir):
         for fn in sorted(os.listdir(cdir)):
-            if fn.endswith(".session"):
+            if fn.endswith(".session") or fn.endswith(".racy"):
                 txt = [l.strip() for l in open(os.path.join(cdir, fn)) if l.strip() and not l.startswith("#")]
                 cfg = {"rabbit": True, "engine": "buntdb"}
                 if txt and txt[0].startswith("CFG"):
@@ -115,17 +116,17 @@ def run(res, prop, props_v, monitor, quick_n=(110, 36), thorough_n=(1500, 60), r
                     crashes.append(dict(session={"id": fn, "cfg": cfg, "steps": [], "crashed_at": "corpus " + fn}, stderr=e))
                 else:
                     o["id"] = "corpus:" + fn
-                    o["kind"] = "exact"
+                    o["kind"] = "exact" if fn.endswith(".session") else "racy"
                     o["ended"] = True
-                    corpus_sessions.append(o)
+                    (corpus_sessions if fn.endswith(".session") else corpus_racy).append(o)
     ss, cr = brokerlib.gen_sessions(exe, res.seed, n_exact, steps, kind="exact")
     crashes += cr
     exact = corpus_sessions + [s for s in ss if s["ended"]]
-    racy_sessions = []
+    racy_sessions = list(corpus_racy)
     if racy:
         rs, cr2 = brokerlib.gen_sessions(exe, res.seed + 7919, max(20, n_exact // 3), steps, kind="racy")
         crashes += cr2
-        racy_sessions = [s for s in rs if s["ended"]]
+        racy_sessions += [s for s in rs if s["ended"]]
     # ---- model evaluation (exact sessions)
     validated = 0
     if pr["runners_ok"]:
